@@ -381,7 +381,7 @@ static int get_d_t_(struct module_data *m, int size, HIO_HANDLE *f, void *parm)
 		data->c2spd = 8400;
 	}
 
-	CLAMP(name_len, 0, XMP_NAME_SIZE);
+	CLAMP(name_len, 0, XMP_NAME_SIZE - 1);	/* leave room for the terminator */
 	hio_read(mod->name, name_len, 1, f);
 	libxmp_set_type(m, "Digital Tracker DTM");
 
